@@ -158,10 +158,69 @@ class Trace(list):
     pass
 
 
+CONTAINER_STRATA = True
+IN_WARMUP = [False]      # recorders of library-internal calls (eigh, least_squares taps) skip the warm-up fit
+
+
+def container_mode(data, init):
+    import zlib
+    h = 0
+    for k in sorted(data):
+        h = zlib.crc32(np.ascontiguousarray(data[k]).tobytes()[:4096], h)
+    h = zlib.crc32(np.ascontiguousarray(init).tobytes()[:4096], h)
+    return (h >> 3) % 5 if (h >> 3) % 5 <= 2 else 0        # 0 plain (3/5), 1 reused trainer + refilled buffers, 2 views
+
+
+def _other(a):
+    """a writable buffer of the same shape / dtype with other, equally valid values (reversed along the observation axis)"""
+    a = np.asarray(a)
+    b = np.array(a[..., ::-1, :] if a.ndim >= 2 else a[::-1], copy=True)
+    if a.dtype.kind in 'fc':
+        b = b * 0.5 if a.ndim < 2 or True else b
+    return np.ascontiguousarray(b).astype(a.dtype)
+
+
+def _view(a):
+    """the same values as a non-contiguous view (last two axes stored transposed)"""
+    a = np.asarray(a)
+    if a.ndim < 2:
+        return a
+    t = np.ascontiguousarray(np.swapaxes(a, -1, -2))
+    v = np.swapaxes(t, -1, -2)
+    v.setflags(write=False)
+    return v
+
+
 def fit(name, data, init=None, num_classes=None, iterations=3, trainer=None, **opts):
     """run <Trainer>.fit and record, for every iteration, the arguments and the result of _m_step.
     Returns (model, trace); trace[i] = dict(affiliation=, quadratic_form=, model=)."""
     T = trainer if trainer is not None else trainer_cls(name)()
+    # ---- the container of the values is part of "all inputs": derived deterministically from the input itself,
+    # (a) the trainer object has been used before and the caller's data / start buffers were refilled in place since,
+    # (b) data arrive as non-contiguous views with the same values.  Either way the fit is the same function of the values.
+    mode = container_mode(data, init) if (CONTAINER_STRATA and trainer is None and init is not None) else 0
+    if mode == 1:
+        bufs = {k: _other(v) for k, v in data.items()}
+        ibuf = _other(init)
+        try:
+            IN_WARMUP[0] = True
+            kw0 = dict(opts)
+            kw0['initialization'] = ibuf
+            if name in INTEGRATION:
+                T.fit(bufs['observation'], bufs['embedding'], iterations=min(2, iterations), **kw0)
+            else:
+                T.fit(bufs['y'], iterations=min(2, iterations), **kw0)
+        except Exception:
+            pass
+        finally:
+            IN_WARMUP[0] = False
+        for k in bufs:
+            bufs[k][...] = data[k]
+        ibuf[...] = init
+        orig_vals = (data, init)
+        data, init = bufs, ibuf
+    elif mode == 2:
+        data = {k: _view(v) for k, v in data.items()}
     trace = Trace()
     orig = T._m_step
 
@@ -195,7 +254,15 @@ def fit(name, data, init=None, num_classes=None, iterations=3, trainer=None, **o
             del T._m_step
         except AttributeError:
             T._m_step = orig
+    if mode == 1:
+        d0, i0 = orig_vals
+        if any(not np.array_equal(data[k], d0[k]) for k in d0) or not np.array_equal(init, i0):
+            raise CallerArrayModified('fit wrote into an array handed over by the caller')
     return model, trace
+
+
+class CallerArrayModified(RuntimeError):
+    pass
 
 
 def predict(name, model, data, **kw):
